@@ -250,9 +250,11 @@ func lexCommentLine(l *lexer) stateFn {
 	l.pos += Pos(len(leftComment))
 	i := strings.Index(l.input[l.pos:], "\n")
 	if i < 0 {
-		return l.errorf("unclosed comment")
+		// The comment is the last line of the text, without a line break
+		l.pos = Pos(len(l.input))
+	} else {
+		l.pos += Pos(i + 1)
 	}
-	l.pos += Pos(i + 1)
 	l.ignore()
 	return lexStmt
 }
